@@ -342,6 +342,7 @@ int main(int argc, char **argv) {
       printf("set rc %%d\n", tdma_schedule_set(n, s, p3)); free(s); }
     else if (!strcmp(op, "advance")) tdma_sched_advance();
     else if (!strcmp(op, "reset")) tdma_sched_reset();
+    else if (!strcmp(op, "flagscan")) printf("flags %%u\n", (unsigned)tdma_sched_flag_scan());
     else if (!strcmp(op, "execute")) { order_n = 0; int rc = tdma_sched_execute(); printf("execute rc %%d calls", rc); for (int i = 0; i < order_n; i++) printf(" %%d/%%d/%%d", order_p[i][0], order_p[i][1], order_p[i][2]); printf("\n"); }
     else if (!strcmp(op, "dump")) { printf("cur %%d nums", l1s.tdma_sched.cur_bucket); for (int b = 0; b < 25; b++) printf(" %%d", l1s.tdma_sched.bucket[b].num_items); printf("\n");
       for (int b = 0; b < 25; b++) for (int i = 0; i < l1s.tdma_sched.bucket[b].num_items && i < 8; i++) { struct tdma_sched_item *it = &l1s.tdma_sched.bucket[b].item[i]; printf("I %%d %%d %%d %%d %%d %%d\n", b, i, it->p1, it->p2, it->p3, it->prio); } }
@@ -428,6 +429,31 @@ def replay(body):
         erc = (len(groups) if fn == 'c_set' else 0) if ok_all else -1
         good = grc == erc and gn == en and all(gi_.get(k) == v for k, v in eit.items())
         return (0, 'native agrees') if good else (1, 'REPRODUCED on native build: rc=%d (expected %d), fill levels %s (expected %s)' % (grc, erc, gn, en))
+    if fn == 'c_flag_scan':
+        cur = sh['cur']; n = i.get('num_items', 0)
+        sc = ['cur', cur, 'num', cur, n]; want = 0
+        for k in range(L.ni):
+            fl = i.get('it%d.flags' % k, 0); sc += ['item', cur, k, k, 0, 0, 0, fl]
+            if k < n: want |= fl
+        rc, out = native(sc + ['flagscan'])
+        if rc != 0: return 1, 'REPRODUCED: native run failed/sanitizer: ' + out[-800:]
+        import re
+        g = int(re.search(r'flags (\d+)', out).group(1))
+        return (0, 'native agrees') if g == want else (1, 'REPRODUCED on native build: flag scan of %d items gives %#x, expected %#x' % (n, g, want))
+    if fn == 'c_reset':
+        cur = i.get('cur_bucket', 0)
+        nums = [i.get('num_items[%d]' % b, 0) for b in range(L.nb)]
+        sc = ['cur', cur]
+        for b in range(L.nb):
+            sc += ['num', b, nums[b]]
+            for k in range(min(nums[b], L.ni)): sc += ['item', b, k, 200 + b, 100 + k, 7, 0, 0]
+        rc, out = native(sc + ['reset', 'dump'])
+        if rc != 0: return 1, 'REPRODUCED: native run failed/sanitizer: ' + out[-800:]
+        import re
+        gn = [int(x) for x in re.search(r'nums((?: \d+)+)', out).group(1).split()]
+        g = int(re.search(r'cur (\d+)', out).group(1))
+        want = [nums[b] if b == cur else 0 for b in range(L.nb)]
+        return (0, 'native agrees') if gn == want and g == cur else (1, 'REPRODUCED on native build: reset at ring position %d leaves fill levels %s (expected %s)' % (cur, gn, want))
     if fn == 'c_advance':
         cur = i.get('cur_bucket', 0)
         rc, out = native(['cur', cur, 'advance', 'dump'])
